@@ -186,6 +186,10 @@ def _judge(cond, wname, res, prop):
                 kwargs[a] = v
         kwargs.update(cex)
         rp = replay(cond.module, cond.fn, kwargs)
+        if rp.get('ok') is False and 'INCONCLUSIVE:' in str(rp.get('result', ''))[:20]:
+            # the harness itself says its abstraction does not apply on this input
+            return Item(verdict=common.INCONCLUSIVE,
+                        detail='harness abstraction not applicable: %s %s' % (kwargs, rp.get('result')), **base)
         if rp.get('ok') is False:
             payload = {'property': prop, 'engine': 'CH', 'module': cond.module, 'fn': cond.fn,
                        'kwargs': kwargs, 'observed': rp, 'crosshair': msgs}
